@@ -22,7 +22,7 @@ CONFIG = {"quick": {"shards": 8, "timeout_s": 600, "cases": 240},
           "thorough": {"shards": 16, "timeout_s": 3000, "cases": 6000}}
 REQUIRED_COUNTERS = ["integrity_checks", "ops_reindex_junctions", "ops_reindex_pipes", "ops_reindex_elements", "ops_continuous_junction_index",
                      "ops_continuous_elements_index", "ops_drop_junctions", "ops_drop_pipes", "ops_drop_elements_at_junctions", "ops_fuse_junctions",
-                     "ops_select_subnet", "untouched_checks", "relabel_result_checks", "subnet_result_checks", "nets_with_pi_valves",
+                     "ops_select_subnet", "untouched_checks", "stored_results_follow_relabelling_checks", "relabel_result_checks", "subnet_result_checks", "nets_with_pi_valves",
                      "nets_with_remote_press_control"]
 REFCOLS = {"sink": ["junction"], "source": ["junction"], "mass_storage": ["junction"], "ext_grid": ["junction"],
            "press_control": ["from_junction", "to_junction", "controlled_junction"]}
@@ -165,6 +165,7 @@ def run_case(case, ctx):
         if len(J) < 3:
             break
         before = resolved(net)
+        stored_before = snapshot(net) if s0 is not None else None
         removed_j, removed_named = set(), {}
         relabel_only = op in OPS[:5]
         try:
@@ -269,6 +270,13 @@ def run_case(case, ctx):
             obs.violate("drop_elements_removed_junctions", "drop_elements_at_junctions removed junction rows", op=op, **desc)
         if not ok:
             break
+        # ---- the stored result tables follow a pure relabelling (no new calculation yet)
+        if relabel_only and stored_before is not None:
+            d, n, md = diff_snapshots(stored_before, snapshot(net), rtol=0.0, atol=0.0)
+            obs.count("stored_results_follow_relabelling_checks")
+            if d:
+                obs.violate("stored_results_misaligned_after_relabelling", "after %s the stored results of %d values sit at other elements, first res_%s[%s].%s %s"
+                            % (op, len(d), d[0][0], d[0][1], d[0][2], d[0][3]), op=op, **desc)
         # ---- relabelling leaves results unchanged
         if relabel_only and s0 is not None:
             out1, _ = run_pipeflow(net, opts)
